@@ -497,22 +497,46 @@ func c02ReferenceChecks(c *core.Ctx, reg *types.Named) {
 			}
 		}
 	}
-	if tbl == nil {
-		c.Fail("C02.R2", "anchor/manifestIterators", 0, "media type -> reference iterator table not found")
-		return
-	}
 	keysSeen := map[string]bool{}
-	for _, b := range sp.Func("init").Blocks {
-		for _, in := range b.Instrs {
-			if mu, ok := in.(*ssa.MapUpdate); ok {
-				if s, ok := facts.ConstString(mu.Key); ok {
-					keysSeen[s] = true
+	var anchorPos token.Pos
+	if tbl != nil {
+		anchorPos = tbl.Pos()
+		for _, b := range sp.Func("init").Blocks {
+			for _, in := range b.Instrs {
+				if mu, ok := in.(*ssa.MapUpdate); ok {
+					if s, ok := facts.ConstString(mu.Key); ok {
+						keysSeen[s] = true
+					}
 				}
 			}
 		}
+	} else if mr := c.P.Func("ocimem", "manifestReferences"); mr != nil {
+		// no table: the dispatch is a switch on the media type parameter — an arm
+		// `mediaType == K` that returns the result of a call (a decoder), not a literal
+		anchorPos = mr.Pos()
+		c.Analysed(facts.FuncName(mr))
+		for _, r := range returnsOf(mr) {
+			if _, isCall := facts.RetVal(r, 0).(*ssa.Extract); !isCall {
+				if _, isCall2 := facts.RetVal(r, 0).(*ssa.Call); !isCall2 {
+					continue
+				}
+			}
+			for _, cd := range facts.CondsAt(r.Block()) {
+				if x, op, y, ok := facts.Cmp(cd); ok && op == token.EQL {
+					for _, pr := range [][2]ssa.Value{{x, y}, {y, x}} {
+						if s, isS := facts.ConstString(pr[1]); isS && argIsParam(pr[0], mr, 0) {
+							keysSeen[s] = true
+						}
+					}
+				}
+			}
+		}
+	} else {
+		c.Fail("C02.R2", "anchor/manifestIterators", 0, "media type -> reference iterator dispatch (table or manifestReferences switch) not found")
+		return
 	}
 	for _, mt := range []string{"application/vnd.oci.image.manifest.v1+json", "application/vnd.oci.image.index.v1+json"} {
-		c.Check(keysSeen[mt], "C02.R2", "manifestIterators/"+mt, tbl.Pos(), "references of "+mt+" are walked", "no reference iterator registered for "+mt+": manifests of that type are accepted without checking their references")
+		c.Check(keysSeen[mt], "C02.R2", "manifestIterators/"+mt, anchorPos, "references of "+mt+" are walked", "no reference iterator registered for "+mt+": manifests of that type are accepted without checking their references")
 	}
 }
 
